@@ -12,8 +12,8 @@
 //   Reset(case)  Call(h,op,cls,role)  Return(h,op,status,msgEmpty,chan)  Probe(h,status,out)  LeakCheck(clean)
 //   Abort(why,frames)  Exit(normal,how)
 // A batch of executions shares one CHILD process and ONE transformer / C-API handle / evaluator (the Probe after
-// every call therefore runs "after any history").  std::terminate, SIGSEGV/SIGBUS/SIGFPE/SIGILL/SIGABRT, SIGALRM
-// (time-out) and the sanitizer death callback write an Abort event naming the top frames and end the child; the
+// every call therefore runs "after any history").  std::terminate, SIGSEGV/SIGBUS/SIGFPE/SIGILL/SIGABRT, SIGPROF
+// (CPU-time limit = time-out) and the sanitizer death callback write an Abort event naming the top frames and end the child; the
 // parent appends Exit(normal=false) and continues with the NEXT case in a new child, so a crash is attributed to the
 // case in flight (its Reset / Call events are the last ones before the Abort).  Between executions the child writes
 // Exit(normal=true, how="continue"): control returned to the driver.
@@ -22,6 +22,8 @@
 #include "common.hpp"
 
 #include <csignal>
+#include <csetjmp>
+#include <sys/time.h>
 #include <cxxabi.h>
 #include <dlfcn.h>
 #include <execinfo.h>
@@ -92,10 +94,23 @@ static size_t escInto(char* out, size_t cap, const char* s, size_t n) {
     return o;
 }
 
-// call stack as JSON array of mangled symbol names (unresolved frames as "?"); no malloc
+// call stack as JSON array of mangled symbol names (unresolved frames as "?"); no malloc.
+// An overrun may have destroyed the stack the unwinder walks: a fault inside backtrace() is caught and the
+// event is written without frames.
+static sigjmp_buf g_bail;
+static volatile sig_atomic_t g_bailArmed = 0;
+static void onBail(int) { if (g_bailArmed) siglongjmp(g_bail, 1); _exit(73); }
 static size_t framesJson(char* out, size_t cap, int skip) {
-    void* addr[64];
-    int n = backtrace(addr, 64);
+    static void* addr[64];
+    volatile int n = 0;
+    struct sigaction sa, oldSegv, oldBus; memset(&sa, 0, sizeof sa);
+    sa.sa_handler = onBail; sa.sa_flags = SA_NODEFER | SA_ONSTACK; sigemptyset(&sa.sa_mask);
+    sigaction(SIGSEGV, &sa, &oldSegv); sigaction(SIGBUS, &sa, &oldBus);
+    { sigset_t un; sigemptyset(&un); sigaddset(&un, SIGSEGV); sigaddset(&un, SIGBUS); sigprocmask(SIG_UNBLOCK, &un, nullptr); }
+    if (sigsetjmp(g_bail, 1) == 0) { g_bailArmed = 1; n = backtrace(addr, 64); }
+    else { n = 0; }
+    g_bailArmed = 0;
+    sigaction(SIGSEGV, &oldSegv, nullptr); sigaction(SIGBUS, &oldBus, nullptr);
     size_t len = 0;
     out[len++] = '[';
     bool first = true;
@@ -151,7 +166,7 @@ static void onTerminate() {
 static void onSignal(int sig, siginfo_t* si, void* uc_) {
     if (g_dying++) _exit(72);
     const char* nm = sig == SIGSEGV ? "SIGSEGV" : sig == SIGABRT ? "SIGABRT" : sig == SIGBUS ? "SIGBUS" : sig == SIGFPE ? "SIGFPE"
-                   : sig == SIGILL ? "SIGILL" : sig == SIGALRM ? "timeout" : "signal";
+                   : sig == SIGILL ? "SIGILL" : sig == SIGPROF ? "timeout" : "signal";
     if (sig == SIGSEGV && si && uc_) {
         // a fault within a page or so of the stack pointer = the stack is exhausted (what ASan calls stack-overflow)
         ucontext_t* uc = (ucontext_t*)uc_;
@@ -186,7 +201,7 @@ static void installHandlers() {
     struct sigaction sa; memset(&sa, 0, sizeof sa);
     sa.sa_sigaction = onSignal; sa.sa_flags = SA_ONSTACK | SA_RESETHAND | SA_SIGINFO;
     sigemptyset(&sa.sa_mask);
-    for (int s : { SIGSEGV, SIGABRT, SIGBUS, SIGFPE, SIGILL, SIGALRM }) sigaction(s, &sa, nullptr);
+    for (int s : { SIGSEGV, SIGABRT, SIGBUS, SIGFPE, SIGILL, SIGPROF }) sigaction(s, &sa, nullptr);
 #if C03_ASAN
     __sanitizer_set_death_callback(onSanitizerDeath);
     // GCC links libubsan with its own copy of the common runtime: register there as well
@@ -531,6 +546,12 @@ static void leakCheck() {
 #endif
 }
 
+static void cpuLimit(long seconds) {
+    struct itimerval it; memset(&it, 0, sizeof it);
+    it.it_value.tv_sec = seconds;
+    setitimer(ITIMER_PROF, &it, nullptr);
+}
+
 static void runChild(const std::vector<J>& cases, size_t from, size_t to) {
     installHandlers();
     Child ch;
@@ -539,13 +560,13 @@ static void runChild(const std::vector<J>& cases, size_t from, size_t to) {
     for (size_t n = from; n < to; ++n) {
         const J& c = cases[n];
         g_sh->inflight = (long)n;
-        alarm((unsigned)c.num("timeout", g_timeout));
+        cpuLimit(c.num("timeout", g_timeout));      // CPU seconds of this process: independent of the load of the machine
         { const off_t end = lseek(g_errfd, 0, SEEK_END); if (end > 0) g_errPos = end; }     // reports of this execution only
         emit("{\"e\":\"Reset\",\"case\":" + std::to_string(c.num("id")) + ",\"scen\":" + jstr(c.str("scen")) + ",\"cls\":" + jstr(c.str("cls")) +
              ",\"role\":" + jstr(c.str("role")) + ",\"d\":" + std::to_string(c.num("d", 0)) + ",\"in\":" + std::to_string(c.num("in")) + "}\n");
         ch.run(c);
-        alarm(0);
-        if (c.boolean("leak", g_leakDefault)) leakCheck();
+        cpuLimit(0);
+        if (c.boolean("leak", g_leakDefault) || n + 1 == to) leakCheck();      // always before the child ends
         g_sh->done = (long)n + 1;
         if (n + 1 < to) emit("{\"e\":\"Exit\",\"normal\":true,\"how\":\"continue\",\"code\":0,\"signal\":0}\n");
     }
@@ -591,7 +612,7 @@ int main(int argc, char** argv) {
     std::vector<Unit> units;
     for (size_t i = 0; i < cases.size();) {
         size_t j = i + 1;
-        while (j < cases.size() && j - i < (size_t)g_batch && cases[j].str("grp") == cases[i].str("grp")) ++j;
+        while (j < cases.size() && j - i < (size_t)g_batch && cases[j].str("grp") == cases[i].str("grp") && !cases[i].boolean("solo") && !cases[j].boolean("solo")) ++j;
         units.push_back({ i, j }); i = j;
     }
     struct Slot { pid_t pid; Unit u; Shared* sh; time_t started; long lastDone; time_t lastProgress; };
@@ -626,12 +647,12 @@ int main(int argc, char** argv) {
         int status = 0;
         pid_t p = waitpid(-1, &status, WNOHANG);
         if (p <= 0) {
-            // hard time-out: a child whose in-flight case makes no progress for (its time-out + 15 s) is killed
+            // hard wall-clock time-out (a child that sleeps or deadlocks consumes no CPU): 30 x the CPU limit + 120 s without progress
             const time_t now = time(nullptr);
             for (auto& s : slots) {
                 if (s.sh->done != s.lastDone) { s.lastDone = s.sh->done; s.lastProgress = now; }
                 const size_t infl = (size_t)s.sh->inflight;
-                const long lim = (infl < cases.size() ? cases[infl].num("timeout", g_timeout) : g_timeout) + 15;
+                const long lim = (infl < cases.size() ? cases[infl].num("timeout", g_timeout) : g_timeout) * 30 + 120;
                 if (now - s.lastProgress > lim) { kill(s.pid, SIGKILL); s.lastProgress = now; }
             }
             usleep(5000);
